@@ -29,7 +29,7 @@ func (c20) ID() string { return "C20" }
 func (c20) Rule() string {
 	return "each run: 1..4 generated trees (regular strings) plus nil and a bare gRPC status error are registered with an Echo handler behind UnaryServerInterceptor on a real gRPC server " +
 		"over an in-memory network whose writes are fragmented by a function of (seed, direction, offset); 1..8 client goroutines issue 2..12 RPCs concurrently through UnaryClientInterceptor " +
-		"and through a client without it; oracle per RPC: nil stays nil, status errors keep code and message, any other error observed at the client equals the same error transferred " +
+		"and through a client without it; for 1/6 of the RPCs the caller's context is ended between the arrival of the reply and its processing by the client interceptor; oracle per RPC: nil stays nil, status errors keep code and message, any other error observed at the client equals the same error transferred " +
 		"directly with EncodeError/DecodeError (visible tree, Is row, accessors, %v, %+v, re-encoded bytes) and the plain client sees the code attached with WrapWithGrpcCode (Unknown otherwise); " +
 		"distinct = (shapes of the handler errors x number of clients x RPC assignment); non-trivial = at least one generated tree with >= 2 layers was transferred"
 }
@@ -98,6 +98,16 @@ func (c20) Run(t *tape.Tape, tier Tier) *Result {
 	for i := range assign {
 		assign[i] = t.Draw(len(hs))
 	}
+	// fault: for some RPCs the caller's context ends right after the
+	// transport has delivered the reply, before the client interceptor
+	// processes it; the handler's error must be delivered all the same
+	endCtx := make([]bool, nrpc)
+	for i := range endCtx {
+		endCtx[i] = t.Bool(1, 6)
+		if endCtx[i] {
+			res.Stats.Faults["context-ends-after-reply"]++
+		}
+	}
 	type rpcResult struct {
 		err, errNo error
 	}
@@ -115,8 +125,13 @@ func (c20) Run(t *tape.Tape, tier Tier) *Result {
 			for i := range next {
 				ctx, cancel := context.WithTimeout(context.Background(), 20*time.Second)
 				req := &errgrpc.EchoRequest{Text: hs[assign[i]].id}
-				_, results[i].err = cl.Client.Echo(ctx, req)
+				cctx, ccancel := context.WithCancel(ctx)
+				if endCtx[i] {
+					cctx = context.WithValue(cctx, grpcsim.EndContextAfterReply, func() { ccancel() })
+				}
+				_, results[i].err = cl.Client.Echo(cctx, req)
 				_, results[i].errNo = cl.ClientNo.Echo(ctx, req)
+				ccancel()
 				cancel()
 			}
 		}()
